@@ -91,7 +91,7 @@ PROPS = {
     },
     "C05": {
         "level": "exploration",
-        "rule": ("exhaustive: every sequence of line kinds up to length 3 (quick) / 4 (thorough) over a 50-kind alphabet (blank, "
+        "rule": ("exhaustive: every sequence of line kinds up to length 3 (quick) / 4 (thorough) over a 54-kind alphabet (blank, "
                  "whitespace, comments, 8 version-line kinds, 11 headers, 6 header look-alikes, valid and invalid records of every "
                  "section, CR / U+3000 / U+0085 endings) in LF/CRLF with and without final newline, a 1/16 sample of them in "
                  "UTF-8+BOM, UTF-16LE, UTF-16BE; random sequences of length 5-40 in all four encodings; metamorphic filler "
@@ -279,7 +279,7 @@ PROPS = {
     },
     "C18": {
         "level": "exploration",
-        "rule": ("exhaustive: all histories of length <= 3 (quick) / 4 (thorough) over 47 operations {Curve::new, BorrowedCurve::new on 12 pooled control-point lists x 7 lengths (incl. zero, negative, below epsilon), "
+        "rule": ("exhaustive: all histories of length <= 3 (quick) / 4 (thorough) over 50 operations {Curve::new, BorrowedCurve::new on 13 pooled control-point lists x 7 lengths (incl. zero, negative, below epsilon), "
                  "SliderPath::curve / curve_with_bufs / borrowed_curve, control_points_mut, expected_dist_mut, clear_curve} sharing one CurveBuffers, in the four modes; random "
                  "histories of 5-50 operations with random extra control-point lists. Oracle: after every computing step the result equals Curve::new with fresh buffers "
                  "bitwise (path and lengths); accessors show what was set. non-trivial = history of at least 2 operations; distinct by hash of the history"),
@@ -329,7 +329,7 @@ MANIFEST_TEXT = {
     },
     "C18": {
         "technique": "runtime monitoring: history-based purity oracle (fresh-buffer recomputation after every step) over exhaustive short and random long API histories; borrowed-curve aliasing under Miri",
-        "level_text": "All short histories over 47 operations sharing one buffer set are enumerated; after every step the produced curve must equal a fresh-buffer computation bitwise.",
+        "level_text": "All short histories over 50 operations sharing one buffer set are enumerated; after every step the produced curve must equal a fresh-buffer computation bitwise.",
         "level_note": "Exhaustive over short histories (exhaustive: true), sampled over long ones.",
     },
     "C19": {
